@@ -116,9 +116,12 @@ class Equip:
             out = "DAbort" if r is None else f"(DAck {L.z(int(r.get()))})"
             return "(DSetEC [" + ";".join(f"({idl(i)}, {num_lit(v)})" for i, v in op[1]) + "])", out
         if kind == "al_enable":
-            r = self.request(5, 3, {"ALED": 128 if op[2] else 0, "ALID": op[1]})
+            # op[2]: True/False (ALED 128 / 0) or a raw ALED byte 0..128; bit 8 decides (E5), 1..127 disable like 0.
+            # 129..255 are documented as "not used" by the library and are not generated (DESIGN 0.6)
+            aled = (128 if op[2] else 0) if isinstance(op[2], bool) else int(op[2])
+            r = self.request(5, 3, {"ALED": aled, "ALID": op[1]})
             out = "DAbort" if r is None else f"(DAck {L.z(int(r.get()))})"
-            return f"(DAlarmEnable {idl(op[1])} {L.bool_(bool(op[2]))})", out
+            return f"(DAlarmEnable {idl(op[1])} {L.bool_(aled >= 128)})", out
         if kind in ("list_al", "list_enabled"):
             r = self.request(5, 5, list(op[1])) if kind == "list_al" else self.request(5, 7)
             out = "DAbort" if r is None else "(DAlarms [" + ";".join(f"({idl(e['ALID'])}, {L.z(int(e['ALCD']))}, {L.string(e['ALTX'])})" for e in r.get()) + "])"
@@ -192,7 +195,7 @@ def rand_ops(rnd, n):
             ids = [rnd.choice(ECIDS if rnd.random() < 0.15 else ECIDS[:-1]) for _ in range(rnd.choice([0, 1, 1, 2, 2, 3]))]
             ops.append(("set_ec", [(i, rnd.choice(EC_VALUES[i])) for i in ids]))
         elif c < 0.68:
-            ops.append(("al_enable", rnd.choice(ALIDS + [7]), rnd.random() < 0.7))
+            ops.append(("al_enable", rnd.choice(ALIDS + [7]), rnd.choice([True, True, True, True, False, False, 1, 127, 64, 128])))
         elif c < 0.74:
             ops.append(("list_al", id_list(rnd, ALIDS + ([7] if rnd.random() < 0.2 else []))))
         elif c < 0.80:
@@ -214,6 +217,8 @@ DIRECTED = [
     [("set_ec", [(10, 20), ("ex", NAN)]), ("req_ec", [10, "ex"]), ("set_ec", [(40, NAN)]), ("set_ec", [(40, 1e300)]), ("set_ec", [("ex", 1e300)]), ("set_ec", [("ex", -1e300)]), ("req_ec", [])],
     [("list_al", []), ("list_enabled", []), ("set_alarm", 1), ("al_enable", 1, True), ("set_alarm", 1), ("clear_alarm", 1), ("set_alarm", 1), ("list_al", [1, 2]), ("list_enabled", []),
      ("al_enable", 1, False), ("clear_alarm", 1), ("set_alarm", 2), ("al_enable", 2, True), ("clear_alarm", 2), ("clear_alarm", 2), ("al_enable", 7, True), ("list_al", [3, 1, 1])],
+    # ALED bytes with bit 8 clear disable, whatever the other bits
+    [("al_enable", 1, 1), ("list_enabled", []), ("set_alarm", 1), ("al_enable", 2, True), ("al_enable", 2, 127), ("list_enabled", []), ("set_alarm", 2), ("al_enable", 1, 128), ("list_enabled", []), ("clear_alarm", 1)],
 ]
 
 
